@@ -46,11 +46,46 @@ def run(chk):
     chk.call(r5_determinism, chk, cf)
     chk.call(r6_bonds_through_api, chk, cf)
     chk.call(r5_first_label_wins, chk, cf)
+    chk.call(r4_plane_and_constitution, chk, cf)
 
 
 # ---------------------------------------------------------------------------
 def _xml_attrs(p):
     return {t[len("const:'"):-1] for t in p if t.startswith("const:'")}
+
+
+def r4_plane_and_constitution(chk, cf):
+    """(a) `mean_plane` fits a plane through points: it subtracts their *centroid* - the mean along the point axis (`axis=0`); a mean over all
+    numbers (no axis) shifts every point by one scalar and tilts the normal for centres away from the fragment's centre.
+    (b) wedge / hash / bold are stereo *marks*: `_parse_bond` may not let a display value that `_parse_fragment` treats as a stereo mark decide the
+    bond's type or order - mirroring the marks would then change the constitution."""
+    prog = chk.prog
+    mp = prog.func("molli.math.plane:mean_plane")
+    chk.analysed(mp)
+    means = [c for c in walk_no_nested(mp.node) if isinstance(c, ast.Call) and (call_name(c) or "").split(".")[-1] in ("average", "mean", "sum")]
+    chk.require(means, "mean_plane: the centring step was not found")
+    bad = [c for c in means if not any(k.arg == "axis" and isinstance(k.value, ast.Constant) and k.value.value == 0 for k in c.keywords)
+           and not (len(c.args) >= 2 and isinstance(c.args[1], ast.Constant) and c.args[1].value == 0)
+           and not (isinstance(c.func, ast.Attribute) and norm(c.func.value) not in ("np", "numpy") and len(c.args) >= 1 and isinstance(c.args[0], ast.Constant) and c.args[0].value == 0)]
+    chk.decide(not bad, "C13.R4", f"{mp.key}:centroid-is-per-axis", mp.where(bad[0] if bad else means[0]), "the centroid is the mean over the points (axis=0)",
+               f"`{short(bad[0], 40) if bad else ''}` averages over all coordinates at once: one scalar is subtracted instead of the centroid, the fitted normal tilts for points far from the "
+               "origin - wrong handedness for stereocentres away from the fragment's centre")
+    pb, pf = prog.method(cf, "_parse_bond"), prog.method(cf, "_parse_fragment")
+    chk.analysed(pb, pf)
+    marks = set()
+    for mt in [m_ for m_ in ast.walk(pf.node) if isinstance(m_, ast.Match)]:
+        for c_ in mt.cases:
+            for p_ in ast.walk(c_.pattern):
+                if isinstance(p_, ast.MatchValue) and isinstance(p_.value, ast.Constant) and isinstance(p_.value.value, str) and any(k in p_.value.value for k in ("Wedge", "Hash", "Bold")):
+                    marks.add(p_.value.value)
+    for c_ in ast.walk(pf.node):
+        if isinstance(c_, ast.Constant) and isinstance(c_.value, str) and any(k in c_.value for k in ("Wedge", "Hash", "Bold")) and " " not in c_.value and "[" not in c_.value:
+            marks.add(c_.value)
+    marks |= {"Hash", "Bold", "WedgeBegin", "WedgeEnd", "WedgedHashBegin", "WedgedHashEnd"}
+    used = {c_.value for t_ in ast.walk(pb.node) if isinstance(t_, (ast.Compare, ast.Match)) for c_ in ast.walk(t_) if isinstance(c_, ast.Constant) and isinstance(c_.value, str)}
+    hit = sorted(used & marks)
+    chk.decide(not hit, "C13.R4", f"{pb.key}:stereo-marks-do-not-decide-the-bond-type", pb.where(), "_parse_bond tests no stereo display value",
+               f"_parse_bond tests the display value(s) {hit}, which are stereo marks: a hashed bond gets another type / order than the same bond drawn bold - mirroring the marks changes the constitution")
 
 
 def r5_first_label_wins(chk, cf):
